@@ -336,54 +336,57 @@ class RTFDocument(BaseModel):
         super().__init__(**data)
 
         # Set default column widths based on DataFrame dimensions when a
-        # DataFrame is provided.
+        # DataFrame is provided. Components are held by reference and may be
+        # shared between documents, so widths resolved against this document's
+        # data go into a copy owned by the document, never into the caller's
+        # object.
         if self.df is not None:
             is_multi_section = isinstance(self.df, list)
 
             if is_multi_section:
                 # Handle multi-section documents
-                for section_df, section_body in zip(
-                    self.df, self.rtf_body, strict=True
-                ):
-                    dim = section_df.shape
-                    if section_body.col_rel_width is None:
-                        section_body.col_rel_width = [1] * dim[1]
-                    elif len(section_body.col_rel_width) == 1 and dim[1] > 1:
-                        section_body.col_rel_width = section_body.col_rel_width * dim[1]
+                self.rtf_body = [
+                    self._resolve_body_widths(section_body, section_df.shape[1])
+                    for section_df, section_body in zip(
+                        self.df, self.rtf_body, strict=True
+                    )
+                ]
 
                 # Handle column headers for multi-section
                 if self.rtf_column_header and isinstance(
                     self.rtf_column_header[0], list
                 ):
                     # Nested list format: [[header1], [header2], [None]]
-                    for section_headers, section_body in zip(
-                        self.rtf_column_header, self.rtf_body, strict=True
-                    ):
-                        if section_headers:  # Skip if [None]
-                            for header in section_headers:
-                                if header and header.col_rel_width is None:
-                                    header.col_rel_width = (
-                                        section_body.col_rel_width.copy()
-                                    )
+                    self.rtf_column_header = [
+                        [
+                            self._inherit_header_widths(header, section_body)
+                            for header in section_headers
+                        ]
+                        if section_headers  # Skip if [None]
+                        else section_headers
+                        for section_headers, section_body in zip(
+                            self.rtf_column_header, self.rtf_body, strict=True
+                        )
+                    ]
                 elif self.rtf_column_header:
                     # Flat list format - apply to first section only
-                    for header in self.rtf_column_header:
-                        if header.col_rel_width is None:
-                            header.col_rel_width = self.rtf_body[0].col_rel_width.copy()
+                    self.rtf_column_header = [
+                        self._inherit_header_widths(header, self.rtf_body[0])
+                        for header in self.rtf_column_header
+                    ]
             else:
                 # Handle single section documents (existing logic)
-                dim = self.df.shape
-                if self.rtf_body.col_rel_width is None:
-                    self.rtf_body.col_rel_width = [1] * dim[1]
-                elif len(self.rtf_body.col_rel_width) == 1 and dim[1] > 1:
-                    self.rtf_body.col_rel_width = self.rtf_body.col_rel_width * dim[1]
+                self.rtf_body = self._resolve_body_widths(
+                    self.rtf_body, self.df.shape[1]
+                )
 
                 # Inherit col_rel_width from rtf_body to rtf_column_header if
                 # not specified
                 if self.rtf_column_header:
-                    for header in self.rtf_column_header:
-                        if header.col_rel_width is None:
-                            header.col_rel_width = self.rtf_body.col_rel_width.copy()
+                    self.rtf_column_header = [
+                        self._inherit_header_widths(header, self.rtf_body)
+                        for header in self.rtf_column_header
+                    ]
 
         # Calculate table spacing for text components
         self._table_space = int(
@@ -392,6 +395,30 @@ class RTFDocument(BaseModel):
 
         # Apply table spacing to text components if needed
         self._apply_table_spacing()
+
+    @staticmethod
+    def _resolve_body_widths(body, ncol: int):
+        """Return `body` with `col_rel_width` resolved for `ncol` columns.
+
+        The caller's object is returned untouched when nothing needs resolving;
+        otherwise a copy carrying the resolved widths is returned.
+        """
+        if body.col_rel_width is None:
+            return body.model_copy(update={"col_rel_width": [1] * ncol})
+        if len(body.col_rel_width) == 1 and ncol > 1:
+            return body.model_copy(
+                update={"col_rel_width": list(body.col_rel_width) * ncol}
+            )
+        return body
+
+    @staticmethod
+    def _inherit_header_widths(header, body):
+        """Return `header` with `col_rel_width` inherited from `body` if unset."""
+        if header and header.col_rel_width is None:
+            return header.model_copy(
+                update={"col_rel_width": list(body.col_rel_width)}
+            )
+        return header
 
     def _apply_table_spacing(self):
         """Apply table-based spacing to text components that reference the table."""
